@@ -10,7 +10,7 @@ From Coq Require Import List Bool Arith NArith ZArith Lia.
 From Coq.Strings Require Import Byte.
 From TV Require Import Base.Prelude Base.Utf8 Base.Winnow Gen.Consts.
 From TV Require Import Model.Trivia Model.Strings Model.Datetime Model.Numbers Model.Tree Model.Parse Model.Document.
-From TV Require Import Proofs.DepthBase Proofs.DepthLex Proofs.DepthValue.
+From TV Require Import Proofs.Eoi Proofs.DepthBase Proofs.DepthLex Proofs.DepthValue.
 Import ListNotations.
 
 (* deepest level (number of keys from the root) at which a table can sit *)
@@ -490,11 +490,10 @@ Proof. intro H. apply tb_root_depth. exact (parse_document_tb _ _ H). Qed.
 (* the value entry point (`Value::from_str`) *)
 Lemma parse_value_depth s v : parse_value_raw s = POk v -> value_depth v <= 2 * LIMIT - 3.
 Proof.
-  unfold parse_value_raw, parse_all. intro H.
-  destruct ((a <- value_ ;; eof ;;; ret a) (new_input s)) as [x i'|e i'|e i'|p] eqn:E; try discriminate.
+  unfold parse_value_raw. intro H.
+  destruct (parse_all (terminated_eoi value_) s) as [x| |] eqn:E; try discriminate.
   cbn [lift_outcome] in H. inversion H; subst.
-  apply bind_ok in E as (v0 & i1 & Hv & E).
-  apply bind_ok in E as (u & i2 & _ & E). inversion E; subst.
+  apply parse_all_eoi_done_inv in E as (i1 & Hv & _).
   exact (value_depth_bound_top _ _ _ Hv).
 Qed.
 
